@@ -1,7 +1,8 @@
 """C13 — failed mail yields exactly one bounce per distinct failure reply, and bounces never loop.
 
-Implementation: real Queue (+ real Bounce) driven through failure histories on the dict backend (the other backends
-are exercised by C01/C03) with a recording bounce factory and bounce queue.
+Implementation: real Queue (+ real Bounce) driven through failure histories on the dict backend and, for a share of the cases,
+on the disk backend (whose calls yield, so that the order of bookkeeping around a storage call matters), with a recording
+bounce factory and bounce queue.
 Model: `attempt run` of the Lean driver (Model/Attempt.lean).
 """
 from harness.core import rng_for
@@ -22,9 +23,10 @@ def cases(tier, seed, phase):
             rng = rng_for(seed, 'c13', j)
             nr = rng.choice([1, 1, 2, 2, 3, 4, 6])
             kinds = rng.choice(['MQ', 'MQPT', 'MQPTX', 'PT', 'MMQS'])
-            return {'backend': 'dict', 'rcpts': list(range(nr)), 'outcomes': qh.gen_history(rng, nr, rng.randint(1, 4), kinds, nreplies=rng.choice([1, 2, 3])),
+            backend = 'disk' if j % 5 == 4 else 'dict'        # a yielding backend for every fifth case
+            return {'backend': backend, 'rcpts': list(range(nr)), 'outcomes': qh.gen_history(rng, nr, rng.randint(1, 4), kinds, nreplies=rng.choice([1, 2, 3])),
                     'backoff': qh.gen_backoff(rng, 3), 'sender': rng.random() < 0.8, 'factory': rng.random() < 0.85,
-                    'headers_only': rng.random() < 0.25}
+                    'headers_only': rng.random() < 0.25, 'pools': [1, 1] if (backend == 'disk' and j % 10 == 9) else None}
         yield mk
 
 
